@@ -16,7 +16,7 @@ from ..core import guarded
 ID = "C09"
 TECHNIQUE = ("Hypothesis-generated addition histories (expression trees, in-place steps, self addition, unit contexts) "
              "of correlation functions / spectral densities against the sum of separately built components")
-LEVEL = ("1-4 analytically parameterised components (correlation functions: overdamped Brownian, its high-temperature "
+LEVEL = ("(The reorganisation energy measured from the data of a sum must equal the sum of the measured values of its components, whether or not operands were measured before they were added.) 1-4 analytically parameterised components (correlation functions: overdamped Brownian, its high-temperature "
          "form, underdamped Brownian; spectral densities: overdamped Brownian, underdamped Brownian, Underdamped) are "
          "combined by a generated expression tree with + and +=, optionally with a value-defined function as the last "
          "right-hand operand; data and reorganisation energy of the result must equal the sums over the components "
